@@ -116,55 +116,16 @@ class _Exhausted(Exception):
 # --------------------------------------------------------------------------------------------------------------
 # which run_app shape does the current source have?  (selects the model variant; confirmed by the correspondence run)
 # --------------------------------------------------------------------------------------------------------------
-def inline_local_helpers(fn: ast.FunctionDef) -> Tuple[Optional[ast.FunctionDef], str]:
-    """`fn` with the calls to its own zero-argument nested helper functions replaced by the helpers' bodies (one level, on a copy
-    of the AST): a maintainer may well move a repeated group of statements of run_app into a local function
-    (`def _send_response_start(): if not response_started: raise …; send({…start…})`) and call it at both places - the shape is
-    the same.  Only helpers that take no argument, are straight-line / `if` code (no loop, try, with, return, yield, nested def)
-    and are used ONLY as call statements `helper()` are inlined; a helper that is referenced in any other way makes the shape
-    unrecognised (None + why), anything else is left as it is for the analysis that follows."""
-    import copy
-    fn = copy.deepcopy(fn)
-    allowed = (ast.Expr, ast.Assign, ast.AugAssign, ast.AnnAssign, ast.Raise, ast.Pass, ast.If)
-    helpers: Dict[str, List[ast.stmt]] = {}
-    for st in fn.body:
-        if isinstance(st, ast.FunctionDef) and not st.decorator_list and not (
-                st.args.args or st.args.posonlyargs or st.args.kwonlyargs or st.args.vararg or st.args.kwarg):
-            body = [b for b in st.body if not isinstance(b, (ast.Nonlocal, ast.Global))
-                    and not (isinstance(b, ast.Expr) and isinstance(b.value, ast.Constant))]
-            inner = [n for b in body for n in ast.walk(b)]
-            if body and all(isinstance(n, allowed) for n in inner if isinstance(n, ast.stmt)) \
-                    and not any(isinstance(n, (ast.Yield, ast.YieldFrom, ast.Await, ast.Lambda, ast.NamedExpr)) for n in inner):
-                helpers[st.name] = body
-    if not helpers:
-        return fn, ""
-
-    class Inline(ast.NodeTransformer):
-        def visit_FunctionDef(self, node: ast.FunctionDef) -> Any:
-            if node is fn:
-                self.generic_visit(node)
-            return node                     # one level: nested functions (start_response, the helpers themselves) are left alone
-
-        def visit_Expr(self, node: ast.Expr) -> Any:
-            c = node.value
-            if isinstance(c, ast.Call) and isinstance(c.func, ast.Name) and c.func.id in helpers and not c.args and not c.keywords:
-                return [copy.deepcopy(b) for b in helpers[c.func.id]]
-            return node
-
-    Inline().visit(fn)
-    ast.fix_missing_locations(fn)
-    left = sorted({n.id for st in fn.body if not (isinstance(st, ast.FunctionDef) and st.name in helpers)
-                   for n in ast.walk(st) if isinstance(n, ast.Name) and n.id in helpers})
-    if left:
-        return None, f"run_app: the local helper(s) {left} are used other than as a call statement"
-    fn.body = [st for st in fn.body if not (isinstance(st, ast.FunctionDef) and st.name in helpers)]
-    return fn, ""
-
-
 def detect_variant(repo: Path = REPO) -> Tuple[Optional[str], str]:
     src = Path(repo) / "src" / "hypercorn" / "app_wrappers.py"
     try:
-        tree = ast.parse(src.read_text())
+        # calls to simple helpers / nested closures that did not exist at the pinned commit are expanded in place before the shape is
+        # read (tools/inline_helpers.py, the tolerance layer of the extractor: "extract a helper" is a behaviour-preserving edit)
+        tools = str(Path(__file__).resolve().parents[2] / "tools")
+        if tools not in sys.path:
+            sys.path.insert(0, tools)
+        import inline_helpers
+        tree = inline_helpers.parse_expanded(src)
     except Exception as e:  # noqa
         return None, f"cannot parse {src}: {e}"
     fn = None
@@ -175,9 +136,6 @@ def detect_variant(repo: Path = REPO) -> Tuple[Optional[str], str]:
                     fn = ch
     if fn is None:
         return None, "WSGIWrapper.run_app not found"
-    fn, why_not = inline_local_helpers(fn)
-    if fn is None:
-        return None, why_not
 
     def is_close_try(n: ast.AST) -> bool:
         return isinstance(n, ast.Try) and any(isinstance(c, ast.Call) and isinstance(c.func, ast.Attribute) and c.func.attr == "close"
